@@ -7,6 +7,7 @@ import (
 	"math/big"
 	"os"
 	"strconv"
+	"unsafe"
 	"runtime"
 	"runtime/debug"
 	"strings"
@@ -799,6 +800,35 @@ func callBuiltin(caller *frame, callpos token.Pos, fn *ssa.Builtin, args []value
 
 	case "ssa:deferstack":
 		return &caller.defers
+
+	case "String": // unsafe.String(&b[0], n): element pointers point into the cell array
+		ptr, _ := args[0].(*value)
+		n, ok := args[1].(int64)
+		if !ok {
+			abort("unmodelled", "unsafe.String with symbolic length")
+		}
+		if n == 0 || ptr == nil {
+			return ""
+		}
+		return cellsToString(append([]value(nil), unsafe.Slice(ptr, int(n))...))
+
+	case "Slice": // unsafe.Slice(ptr, n)
+		ptr, _ := args[0].(*value)
+		n, ok := args[1].(int64)
+		if !ok {
+			abort("unmodelled", "unsafe.Slice with symbolic length")
+		}
+		if n == 0 || ptr == nil {
+			return []value(nil)
+		}
+		return unsafe.Slice(ptr, int(n))
+
+	case "SliceData":
+		xs, _ := args[0].([]value)
+		if len(xs) == 0 {
+			return (*value)(nil)
+		}
+		return &xs[0]
 	}
 	_ = p
 	panic("unknown built-in: " + fn.Name())
